@@ -113,6 +113,7 @@ func loadProgram(dir string, extraEnv []string, overlay map[string][]byte) *Prog
 	p.cgCHA = cha.CallGraph(p.SSA)
 	p.cgVTA = vta.CallGraph(p.AllFuncs, p.cgCHA)
 	theProgram = p
+	domCache = map[*ssa.Function]*domInfo{} // (keyed by function: entries of an earlier load would keep its whole program alive)
 	p.normalise()
 	for fn := range p.AllFuncs {
 		if fn.Pkg != nil && strings.HasPrefix(fn.Pkg.Pkg.Path(), modPath) && len(fn.Blocks) > 0 {
